@@ -10,6 +10,7 @@ import (
 	"math/big"
 	"sort"
 	"strings"
+	"time"
 
 	"golang.org/x/tools/go/ssa"
 )
@@ -86,6 +87,7 @@ type Obligation struct {
 }
 
 type Verifier struct {
+	fnStart time.Time // when generation for the function under verification began
 	orphanFor map[string]*LoopSpec // left-over loop clauses of the top function's contract, by the inlined loop they were given to
 	orphanTop *ssa.Function
 	calleeBindings []*Term // bindings of the closure whose contract is being applied
@@ -696,7 +698,7 @@ func (v *Verifier) jump(st *State, b *ssa.BasicBlock) bool {
 			specFr = st.frames[0]
 		}
 	}
-	if spec == nil && !st.initMod && v.topC != nil && v.top != nil && len(st.frames) > 1 && fr.fn.Pkg == v.top.Pkg && v.P.Contracts[funcKey(fr.fn)] == nil {
+	if spec == nil && !st.initMod && v.topC != nil && v.top != nil && len(st.frames) > 1 && fr.fn.Pkg == v.top.Pkg && v.P.Contracts[funcKey(fr.fn)] == nil && os.Getenv("GOVC_NO_ORPHAN") == "" {
 		// A loop of a helper without contract of its own, inlined into the function under verification, while
 		// that function's contract has clauses for more loops than the function has now: the loop was moved into
 		// the helper. The left-over clauses (in order) are tried on it; they are checked like any others.
@@ -707,7 +709,8 @@ func (v *Verifier) jump(st *State, b *ssa.BasicBlock) bool {
 	}
 	if spec == nil || st.initMod {
 		fr.visits[b.Index]++
-		if fr.visits[b.Index] > 400 {
+		if fr.visits[b.Index] > 400 || (fr.visits[b.Index] > 32 && !v.fnStart.IsZero() && time.Since(v.fnStart) > 4*time.Minute) {
+			// (the second bound: unrolling a loop whose tests the solver has to decide one by one can take hours)
 			unsup("loop %d of %s needs an invariant (no concrete bound)", ord, fr.fn)
 		}
 		return true
